@@ -8,6 +8,7 @@ import (
 	"time"
 
 	"github.com/oxia-db/oxia/common/vhook"
+	"github.com/oxia-db/oxia/proto"
 	"github.com/oxia-db/oxia/server/kv"
 
 	"verif/lib/core"
@@ -105,6 +106,7 @@ func runChaos(prop, part, tier string, seed uint64, idx int) core.Result {
 			}
 		case p < 64:
 			if f := ch.randomFollower(); f != "" {
+				ch.ackMon.noteRestart(f, false)
 				if err := c.Node(f).Restart(); err != nil {
 					r.Inconclusive("restart: " + err.Error())
 					return r.Done()
@@ -125,6 +127,7 @@ func runChaos(prop, part, tier string, seed uint64, idx int) core.Result {
 			// log files hold on disk is then what it comes back with)
 			for _, e := range c.Events()[nEv:] {
 				if e.Kind == "truncate-ok" && rng.IntN(2) == 0 && e.Node != ch.leader {
+					ch.ackMon.noteRestart(e.Node, false)
 					if err := c.Node(e.Node).Restart(); err == nil {
 						delete(ch.attached, e.Node)
 						r.Count("restarts_right_after_a_truncation", 1)
@@ -143,13 +146,28 @@ func runChaos(prop, part, tier string, seed uint64, idx int) core.Result {
 					}
 					before := fw.LastOffset()
 					acked, had := ch.ackMon.ackedBy(f, ch.term)
+					ackedOld, hadOld := ch.ackMon.ackedBeforeRestart(f, ch.term)
+					if hadOld && (!had || ackedOld > acked) {
+						acked, had = ackedOld, true
+					}
+					following := false
+					if st, serr := c.Node(f).GetStatus(); serr == nil && st.Status == proto.ServingStatus_FOLLOWER {
+						following = true
+					}
 					res, err := c.Node(f).Truncate(req)
 					r.Count("duplicate_truncates", 1)
 					ch.log("duplicate truncate to %s (term %d, head %d): err=%v", f, req.Term, req.HeadEntryId.Offset, err)
 					if err == nil {
 						r.Count("duplicate_truncates_accepted", 1)
 						if had && res.HeadEntryId.Offset < acked && res.HeadEntryId.Offset < before {
-							r.Violate(prop+"/duplicate-truncate-cut-acknowledged-entries", fmt.Sprintf("%s had acknowledged offset %d on a stream of term %d (log end %d); a re-delivered Truncate of the same term cut its log back to %d", f, acked, ch.term, before, res.HeadEntryId.Offset), map[string]any{"schedule": ch.tail(40)})
+							// a node that restarted, or was sent NewTerm of the same term again, is FENCED/NOT_MEMBER in that
+							// term: a state in which Truncate is accepted by design (known finding); accepted while FOLLOWER
+							// is something else
+							sig := "/duplicate-truncate-cut-acknowledged-entries"
+							if !following {
+								sig += "/after-a-restart-of-the-follower"
+							}
+							r.Violate(prop+sig, fmt.Sprintf("%s had acknowledged offset %d on a stream of term %d (log end %d, following: %v); a re-delivered Truncate of the same term cut its log back to %d", f, acked, ch.term, before, following, res.HeadEntryId.Offset), map[string]any{"schedule": ch.tail(40)})
 						}
 					}
 				}
